@@ -75,6 +75,20 @@ CHECKS = {
         "relation must hold and under which model-class guard. 5-taxon seeded problems.",
         technique="TLA+ exact invariance theorems (TLC) + relational conformance on real likelihood functions",
     ),
+    "C16": dict(
+        category="model_checking",
+        text="NestedInit.tla states cogent3's projection of parameters between nested models by matrix coordinates over the exact model "
+        "definitions of MarkovQ.tla; TLC proves Q(rich, projected) = Q(nested) for every pair (JC69<K80, F81<HKY85<TN93<GTR<GN, "
+        "HKY85<GN, MG94HKY<MG94GTR, CNFHKY<CNFGTR) with prime-coded values, and NestedScope.tla enumerates nesting by scope (all "
+        "partitions of 3 edges x refinements). Each case is replayed with initialise_from_nested on real functions: projected values, "
+        "per-edge rate matrices and lnL must equal the nested function's before any optimisation. Recorded optimiser runs (every "
+        "calculator evaluation, in-bounds flag, start/final lnL; local, global, both; with and without evaluation limits) are "
+        "validated by Trace_Optimiser.tla against NeverLoses / WithinBounds; hypothesis apps must give LR >= 0.",
+        design_ref="DESIGN.md section 2 / C16",
+        note="Trusted: TLC, harness wrappers around Calculator.testoptparvector and ParameterController.optimise (harness side, "
+        "no source change). Whether the optimiser finds the optimum is not checked. Small 3-taxon problems.",
+        technique="TLA+ nested-projection theorem (TLC exact) + spec->code replay; code->spec trace validation of optimiser runs",
+    ),
 }
 
 PENDING = {}
